@@ -126,7 +126,22 @@ pub fn check(a: &Analysis, aux: &mut Aux, t: &mut Tally) -> Vec<Violation> {
                 prop: "C08",
                 rule: "restriction-replay".into(),
                 key: if collision {
-                    "cookie-collision".into()
+                    // which flow already holds the table entry with the same cookie?
+                    let other = s.tcp.as_ref().and_then(|ti| {
+                        a.steps[..si].iter().rev().find_map(|p| {
+                            p.tcp.as_ref().filter(|pt| pt.flow != ti.flow && pt.cookie == ti.cookie && p.validates).map(|pt| pt.flow.clone())
+                        })
+                    });
+                    let related = match (&s.tcp, &other) {
+                        (Some(ti), Some(o)) => {
+                            let f = &ti.flow;
+                            [f.src != o.src, f.dst != o.dst, f.sport != o.sport, f.dport != o.dport].iter().filter(|b| **b).count() <= 1
+                        }
+                        _ => true,
+                    };
+                    // two unrelated tuples with equal 32-bit cookies are the 2^-32 birthday event the
+                    // design accepts knowingly; tuples differing in one component point at a weak hash
+                    if related { "cookie-collision:related-tuples".into() } else { "cookie-collision:unrelated-tuples".into() }
                 } else {
                     format!(
                         "interference:{}",
